@@ -36,9 +36,15 @@ struct Raw
 };
 
 static enum DeviceState
+raw_stop(struct Storage* self_);
+
+static enum DeviceState
 raw_set(struct Storage* self_, const struct StorageProperties* properties)
 {
     struct Raw* self = containerof(self_, struct Raw, writer);
+    // Configured again while still running: finish (close) the file that is
+    // being written first, or its descriptor is never closed.
+    raw_stop(self_);
     CHECK(properties->uri.str);
     CHECK(properties->uri.nbytes);
 
